@@ -60,6 +60,16 @@ SHORT = {
  'C17c': '`escape_one_char`: every Unicode whitespace character is written as `\\s` (U+00A0 etc. come back as a plain space)',
  'C18c': '`DevInputReader::next`: an unknown key code is reported as `UNKNOWN` instead of being skipped',
  'C20c': 'per-device loop: on a failed keyboard read the held keys are released (a write after the failure, its own error discarded) before the error is returned',
+ 'C04d': '`add_new_mapping`: an output modifier counts as down when it is physically held (instead of: passed through), so it is not pressed after an earlier chord lifted it',
+ 'C05e': '`add_new_mapping`: a passed-through key that the new mapping also outputs no longer moves to the mapped outputs (a modifier stays owned by the physical key and is lifted with it)',
+ 'C06d': '`add_new_mapping`: `absorbing_trigger.get_or_insert(..)` instead of an assignment (a stale trigger survives the return to rest and changes a later answer)',
+ 'C08d': '`add_new_mapping`: absorbed keys are lifted only before a NON-absorbing key-producing mapping (an absorbed Shift stays down when another absorbing chord fires)',
+ 'C09d': '`newly_press`: a press swallowed because a mapping in effect mentions the key answers NoChange instead of Disabled',
+ 'C11d': 'per-device loop: the first wake-up is `delay_ms.max(interval_ms)` after the firing',
+ 'C13f': '`convert_alias`: an alias defined by a chord of two or more modifiers no longer yields its own mapping (`is_only_modifiers`)',
+ 'C14d': 'parser (`parse_key_code`): the error message shortens an over-long key name with a byte slice (`&text[..24]` panics inside a multi-byte character)',
+ 'C19d': '`remove_mapping`: the hand-over branch `continue`s past the removal from the mapped outputs (the key stays in both lists; a later release is sent twice)',
+ 'C20d': 'per-device loop: an error of `next_tablet` outside tablet mode is logged and treated like Busy',
 }
 rows = []
 for s in sorted(os.listdir('/verif/seeded')):
